@@ -446,6 +446,10 @@ func (x *Exec) applyContract(st *State, in ssa.Instruction, fc *FuncContract, si
 		st.assume(g)
 	}
 	pre := st.snapshotView()
+	// the callee may have allocated: the set of existing objects after the call is some superset of the one before
+	if !fc.Pure {
+		x.growAlloc(st)
+	}
 	// results are created before the frame so that assigns clauses may name locations of the result
 	res := x.freshResults(st, sig, smtName(calleeName))
 	bindResults(env.names, sig, res)
